@@ -213,9 +213,9 @@ def main():
                 "memory read port, pipestage over movable registers, negative registers; unrelated allocations between construction steps) and (every 8th case) "
                 "literal-vs-literal comparisons with undefined bits in IF conditions / enables / mux selectors / outputs; export single file / "
                 "file per partition, default/GHDL/Quartus/Vivado project writers, with and without the test-bench recorder; each built 2x in each of >=4 (thorough 8) "
-                "child processes with different heap layouts + 3 node-order shuffles; non-trivial = every construction compared byte-for-byte with the reference "
+                "child processes with different heap layouts + 5 permutations of the node storage order made and observed by the harness (seeded random, reversal, rotation, neighbour swaps, the library's shuffleNodes(); each must be a non-identity permutation of the same nodes); non-trivial = every construction compared byte-for-byte with the reference "
                 "construction. container stream: op histories / comparator calls / std::sort / UnstableMap observations on real nodes, clocks, groups whose address "
-                "order differs from their id order (operator-new arena).",
+                "order differs from their id order (operator-new arena); the specification orders by the creation index known to the harness and the reported ids must be unique and increasing in creation order.",
         "samples": samples or ["(no stream ran)"],
         "traces_validated_against_impl": int(total.get("cases", 0) or 0),
         "explanation": "Theorems about the translated comparators and the ordered/unordered containers; the rest of the property (no other address dependence anywhere "
